@@ -38,8 +38,20 @@ def main():
         sys.exit(2)
     except SystemExit:
         raise
-    except BaseException:
+    except BaseException as e:
         traceback.print_exc()
+        # An exception that the LIBRARY raised (innermost frame in its sources) where the check did not expect one: the
+        # code under test does not do what the check's driver relies on - a violation, not a fault of the machinery
+        # (a check that merely stopped on a changed tree would hide what it ran into).
+        tb = traceback.extract_tb(e.__traceback__)
+        lib = os.path.join(core.repo_root(), 'src') + os.sep
+        if tb and os.path.abspath(tb[-1].filename).startswith(os.path.abspath(lib)) and not a.replay:
+            where = '%s:%s' % (os.path.relpath(tb[-1].filename, lib), tb[-1].name)
+            ctx.violation('%s/unexpected-library-exception/%s/%s' % (prop, type(e).__name__, where),
+                          'the library raised %s: %s in %s where the check relies on it not to' % (type(e).__name__, e, where),
+                          {'kind': 'exception', 'traceback': traceback.format_exc()[-3000:]})
+            rc = ctx.finish()
+            sys.exit(rc if rc else 2)
         print('MACHINERY-FAILURE property=%s: unexpected exception in the harness' % prop, file=sys.stderr)
         sys.exit(2)
     sys.exit(rc)
